@@ -31,6 +31,17 @@ def main():
         fcntl.flock(lk, fcntl.LOCK_UN)
     if r.returncode != 0:
         print("BUILD FAILED\n" + r.stdout[-4000:], file=sys.stderr); return 2
+    mc = P.get("memcheck")      # extra stage: the same scenario on an unsanitised build under valgrind memcheck (uninitialised values)
+    vglog = os.path.join(outdir, "vg", "log"); os.makedirs(os.path.join(outdir, "vg"), exist_ok=True); os.environ["COSIM_VGLOG"] = vglog
+    VG = ["valgrind", "-q", "--trace-children=yes", "--error-exitcode=0", "--log-file=" + vglog + ".%p"]
+    if mc:
+        with open(os.path.join(V, "build", ".lock"), "w") as lk:
+            fcntl.flock(lk, fcntl.LOCK_EX)
+            r = subprocess.run(["make", "-C", os.path.join(V, "sim"), "REPO=" + repo, "KEY=" + key + "-vg", "SAN=", "OPT=-O1 -gdwarf-4 -DCOSIM_VALGRIND", "-j16"], stdout=subprocess.PIPE, stderr=subprocess.STDOUT, text=True)
+            fcntl.flock(lk, fcntl.LOCK_UN)
+        if r.returncode != 0:
+            print("BUILD (valgrind variant) FAILED\n" + r.stdout[-4000:], file=sys.stderr); return 2
+    vbins = {"A": os.path.join(bdir + "-vg", "cosim_A"), "B": os.path.join(bdir + "-vg", "cosim_B")}
     tb = time.time() - t0
     bins = {"A": os.path.join(bdir, "cosim_A"), "B": os.path.join(bdir, "cosim_B")}
     known_file = os.path.join(V, "KNOWN_FINDINGS.txt")
@@ -44,7 +55,11 @@ def main():
     for f in sorted(glob.glob(os.path.join(V, "findings", pid, "*.json"))):
         try: b = json.load(open(f)).get("build", "A")
         except Exception: b = "A"
-        rr = subprocess.run([bins[b], "replay", f, "--outdir", outdir], stdout=subprocess.PIPE, stderr=subprocess.PIPE, text=True)
+        if os.path.basename(f).startswith("memcheck-"):
+            if not mc: continue
+            rr = subprocess.run(VG + [vbins[b], "replay", f, "--outdir", outdir], stdout=subprocess.PIPE, stderr=subprocess.PIPE, text=True)
+        else:
+            rr = subprocess.run([bins[b], "replay", f, "--outdir", outdir], stdout=subprocess.PIPE, stderr=subprocess.PIPE, text=True)
         sig = ""
         for l in rr.stdout.splitlines():
             if "sig=" in l: sig = l.split("sig=", 1)[1].split()[0]
@@ -69,6 +84,14 @@ def main():
         cmd = [bins[b], "run", P["scenario"], "--seed", str(seed), "--runs", str(share[b]), "--jobs", str(jw), "--tier", tier, "--out", res, "--outdir", outdir, "--known", known_file]
         procs[b] = (subprocess.Popen(cmd, stdout=subprocess.PIPE, stderr=subprocess.PIPE, text=True), res)
     results = {}
+    mcruns = 0
+    if mc:
+        mcruns = mc[tier]
+        for b in builds:
+            res = os.path.join(outdir, "%s-%s-%s-memcheck.json" % (pid, tier, b))
+            if os.path.exists(res): os.unlink(res)
+            cmd = VG + [vbins[b], "run", P["scenario"], "--seed", str(seed), "--runs", str(mcruns // len(builds)), "--jobs", str(jw), "--tier", tier, "--out", res, "--outdir", os.path.join(outdir, "vg"), "--known", known_file]
+            procs[b + "-memcheck"] = (subprocess.Popen(cmd, stdout=subprocess.PIPE, stderr=subprocess.PIPE, text=True), res)
     for b, (p, res) in procs.items():
         so, se = p.communicate()
         if p.returncode not in (0, 1): machinery += 1; lines.append("MACHINERY: cosim_%s exited %d\n%s" % (b, p.returncode, se[-1500:]))
@@ -78,34 +101,39 @@ def main():
             if l.startswith("KNOWN-FINDING:"): knowncnt += 1
         try: results[b] = json.load(open(res))
         except Exception as e: machinery += 1; lines.append("MACHINERY: no result file from cosim_%s (%s)" % (b, e))
+    for f in glob.glob(vglog + ".*"): os.unlink(f)
     wall = time.time() - t0
     # ---- evidence
-    ev = sum(r["evaluations"] for r in results.values()) + len(regress)
+    mainr = {b: r for b, r in results.items() if not b.endswith("-memcheck")}; mcr = {b: r for b, r in results.items() if b.endswith("-memcheck")}
+    ev = sum(r["evaluations"] for r in mainr.values()) + len(regress)
     cov = {"evaluations": ev,
-           "distinct_nontrivial": sum(r["cov"]["traces"] for r in results.values()),
+           "distinct_nontrivial": sum(r["cov"]["traces"] for r in mainr.values()),
            "rule": P["rule"],
-           "samples": [s for r in results.values() for s in r["samples"][:2]],
-           "plans_generated": sum(r["runs"] for r in results.values()),
-           "nontrivial_runs": sum(r["cov"]["nontrivial"] for r in results.values()),
-           "distinct_abstract_states": sum(r["cov"]["states"] for r in results.values()),
-           "distinct_state_op_pairs": sum(r["cov"]["pairs"] for r in results.values()),
-           "operations_executed": sum(r["cov"]["ops"] for r in results.values()),
-           "frames_delivered": sum(r["cov"]["frames_in"] for r in results.values()),
-           "frames_emitted": sum(r["cov"]["frames_out"] for r in results.values()),
-           "simulated_seconds": round(sum(r["cov"]["sim_seconds"] for r in results.values()), 3),
+           "samples": [s for r in mainr.values() for s in r["samples"][:2]],
+           "plans_generated": sum(r["runs"] for r in mainr.values()),
+           "nontrivial_runs": sum(r["cov"]["nontrivial"] for r in mainr.values()),
+           "distinct_abstract_states": sum(r["cov"]["states"] for r in mainr.values()),
+           "distinct_state_op_pairs": sum(r["cov"]["pairs"] for r in mainr.values()),
+           "operations_executed": sum(r["cov"]["ops"] for r in mainr.values()),
+           "frames_delivered": sum(r["cov"]["frames_in"] for r in mainr.values()),
+           "frames_emitted": sum(r["cov"]["frames_out"] for r in mainr.values()),
+           "simulated_seconds": round(sum(r["cov"]["sim_seconds"] for r in mainr.values()), 3),
            "runs_per_hour": int(ev / max(wall - tb, 1e-3) * 3600),
            "build_s": round(tb, 2),
-           "per_build": {b: {"plans": r["runs"], "evaluations": r["evaluations"], "wall_s": round(r["wall_s"], 2)} for b, r in results.items()},
+           "per_build": {b: {"plans": r["runs"], "evaluations": r["evaluations"], "wall_s": round(r["wall_s"], 2)} for b, r in mainr.items()},
            "counters": {}, "regression_plans": regress,
            "components": COMPONENTS, "technique": "deterministic simulation with fault injection: seeded search over plans (operation order, faults, configuration), lockstep reference model, minimised replay files"}
-    for r in results.values():
+    for r in mainr.values():
         for k, v in r["cov"]["counters"].items(): cov["counters"][k] = cov["counters"].get(k, 0) + v
+    if mcr: cov["memcheck_stage"] = {"what": "the first plans of the same seeded sequence executed again on an unsanitised build (-O1) under valgrind memcheck; a memcheck report during a plan is a violation (signature <id>/memcheck/<function>)", "evaluations": sum(r["evaluations"] for r in mcr.values()), "per_build": {b: {"plans": r["runs"], "wall_s": round(r["wall_s"], 2)} for b, r in mcr.items()}}
     zero = [p for p in P.get("probes", []) if cov["counters"].get(p, 0) == 0]
     if zero: cov["probes_at_zero"] = zero
     evidence = {"property_id": pid, "tier": tier, "seed": seed, "level": P["level"], "coverage": cov,
                 "assumptions": COMMON_ASSUMPTIONS + P.get("assumptions", []), "wall_s": round(wall, 2), "violations": unknown,
                 "known_findings_seen": knowncnt}
-    with open(os.path.join(V, "evidence", pid + ".json"), "w") as f: json.dump(evidence, f, indent=1)
+    evdir = os.path.join(V, "evidence") if key == "default" else os.path.join(outdir, "evidence")   # runs against a scratch copy (VERIF_REPO) do not touch the evidence of /repo
+    os.makedirs(evdir, exist_ok=True)
+    with open(os.path.join(evdir, pid + ".json"), "w") as f: json.dump(evidence, f, indent=1)
     for l in lines: print(l)
     print("%s %s: %d evaluations, %d distinct non-trivial traces, %d unknown violation(s), %d known finding(s), %.1fs (build %.1fs)%s" %
           (pid, tier, ev, cov["distinct_nontrivial"], unknown, knowncnt, wall, tb, "  probes at zero: " + ",".join(zero) if zero else ""))
